@@ -86,6 +86,40 @@ def dead_call(b, c):
     return True
 
 
+def _function_signature(b):
+    from sigtools import signatures
+    from vlib import expect
+    if b.prog['route'] in ('self_method', 'self_attr', 'classmethod_cls'):
+        return signatures.signature(b.target.__func__)
+    if b.prog['route'] == 'param':
+        return signatures.signature(b.target.func)
+    return expect._own_def_signature(b.wfunc) if hasattr(b.wfunc, '__code__') else signatures.signature(b.wfunc)
+
+
+def colliding_on_branch(b, calls, K):
+    """Some keyword of the shape names a parameter of the callee of one of `calls` that this
+    call's own signature (public algebra on the ground truth) does not offer by keyword: for
+    that call alone the shape would be a colliding one (the keyword lands in **kwargs while the
+    call binds the parameter positionally or hides it); it is only non-colliding for the merged
+    result because another call advertises the name."""
+    from vlib import expect
+    try:
+        fsig = _function_signature(b)
+        idx = [i for i, c in enumerate(b.prog['calls']) if any(c is x for x in calls)]
+        for t, e in expect.per_call_signatures(b, fsig):
+            if isinstance(e, Exception):
+                continue
+            if not any(b.truth[i] is t for i in idx):
+                continue
+            ekp = cpbind.kwpassable(universe.sig_view(e))
+            cnames = set(p.name for p in b.leaves[t['to']])
+            if any(k in cnames and k not in ekp for k in K):
+                return True
+    except Exception:
+        return False
+    return False
+
+
 def calls_role_inconsistent(b):
     """The per-call signatures (computed from the ground truth with the public algebra) give
     some shared name different roles: merge then only vouches for all-positional and
@@ -193,6 +227,8 @@ def check_prog(prog, stats, executed_cap=400):
                     for ks in itertools.combinations(hk_names, r)] if ck else [{}]
         written = set(n for c in prog['calls'] for n in c['names'])
         oview = universe.spec_view(b.outer)
+        if deco in ('kwoargs', 'autokwoargs'):
+            oview = universe.sig_view(P)        # what the modifier advertises for the def itself
         okp = cpbind.kwpassable(oview)
         ocap = cpbind.poscap(oview)
         ek_names = [n for n in hk_names if n not in okp][:4]
@@ -254,7 +290,9 @@ def check_prog(prog, stats, executed_cap=400):
                             bucket = 'C05/unsound/%s/%s/%s' % (
                                 'unresolvable' if route in progs.UNRESOLVABLE else route,
                                 'hidden' if hidden else 'plain', 'tainted' if tainted else 'untainted')
-                            if npos and K and calls_role_inconsistent(b):
+                            if len(b.truth) > 1 and colliding_on_branch(b, calls, K):
+                                bucket = 'C05/unsound/multi-call/keyword-colliding-on-one-branch'
+                            elif npos and K and calls_role_inconsistent(b):
                                 bucket = 'C05/unsound/role-inconsistent-calls/mixed-shape'
                             stats.fail(bucket, dict(case, shape=[npos, list(K)], sel=sel),
                                        'sigtools.signature(TARGET) = %s (plain: %s) accepts the non-colliding call with %d positionals and keywords %s, '
@@ -282,7 +320,7 @@ def shard_hyp(arg):
 
 def run(ctx):
     total = Stats()
-    n = ctx.pick(2400, 48000)
+    n = ctx.pick(4800, 64000)
     tasks = [(s, n // 32, {}) for s in ctx.shard_seeds(16)]
     # focused sub-grammars: the untainted well-resolved core, and taints only
     tasks += [(s + 500, n // 64, {'routes': ('global', 'closure', 'attr', 'self_method', 'param'), 'allow_taints': False})
